@@ -116,11 +116,11 @@ Lemma with_field_ext {T C} k (g g' : fld -> T -> C) (fs : list (fld * T)) :
   Forall (fun x => g (fst x) (snd x) = g' (fst x) (snd x)) fs -> with_field k g fs = with_field k g' fs.
 Proof. induction 1 as [|[f t] r E _ IH]; simpl; [reflexivity|]. simpl in E. now rewrite E, IH. Qed.
 
-Lemma lit_scalar_norm v l : lit_scalar l -> py_eqb (normalise v) l = py_eqb v l /\ (py_eqb v l = true -> normalise v = v).
+Lemma lit_scalar_norm v l : lit_scalar l -> lit_match (normalise v) l = lit_match v l /\ (lit_match v l = true -> normalise v = v).
 Proof. destruct l; simpl; try tauto; intros _; destruct v; simpl; split; try reflexivity; try discriminate. Qed.
 
 Lemma literal_norm vals v : Forall lit_scalar vals ->
-  existsb (py_eqb (normalise v)) vals = existsb (py_eqb v) vals /\ (existsb (py_eqb v) vals = true -> normalise v = v).
+  existsb (lit_match (normalise v)) vals = existsb (lit_match v) vals /\ (existsb (lit_match v) vals = true -> normalise v = v).
 Proof.
   induction 1 as [|l r L _ [IH1 IH2]]; simpl; [split; [reflexivity|discriminate]|].
   destruct (lit_scalar_norm v l L) as [E1 E2]. rewrite E1, IH1. split; [reflexivity|].
@@ -161,7 +161,7 @@ Proof.
     now apply E.
   - (* literals *)
     simpl. destruct (literal_norm vals v Nvals) as [E1 E2]. rewrite E1.
-    destruct (existsb (py_eqb v) vals) eqn:E; [|reflexivity]. now rewrite (E2 eq_refl).
+    destruct (existsb (lit_match v) vals) eqn:E; [|reflexivity]. now rewrite (E2 eq_refl).
   - (* dataclasses *)
     assert (F : Forall (fun x : fld * ty => forall y, tc (snd x) (normalise y) = tc (snd x) y) fs).
     { exact (forall_mp _ _ _ IHfs Nfs). }
